@@ -976,4 +976,29 @@ func genIsolated(o *out) {
 	o.line("(* release by `defer isRunning.Store(false)` placed before the call of the underlying job (true),")
 	o.line("   or by a plain statement after the call, which a panic skips (false) *)")
 	o.line("Definition iso_store_deferred : bool := %s.", coqBool(deferred))
+
+	// NewIsolatedJob(underlying): `return &isolatedJob{Job: underlying}` -- the new gate wraps exactly the job it was handed
+	// (also when that job is itself an isolated job: the gates then stack, every path to the innermost job passes all of them)
+	ctor := f.method("", "NewIsolatedJob")
+	if ctor.Type.Params == nil || len(ctor.Type.Params.List) != 1 || len(ctor.Type.Params.List[0].Names) != 1 {
+		die("NewIsolatedJob: expected one parameter")
+	}
+	param := ctor.Type.Params.List[0].Names[0].Name
+	wrapsArg := false
+	if len(ctor.Body.List) == 1 {
+		if rs, ok := ctor.Body.List[0].(*ast.ReturnStmt); ok && len(rs.Results) == 1 {
+			if u, ok := unparen(rs.Results[0]).(*ast.UnaryExpr); ok && u.Op == token.AND {
+				if cl, ok := u.X.(*ast.CompositeLit); ok && callName(cl.Type) == typ && len(cl.Elts) == 1 {
+					if kv, ok := cl.Elts[0].(*ast.KeyValueExpr); ok && callName(kv.Key) == "Job" && callName(kv.Value) == param {
+						wrapsArg = true
+					}
+				}
+			}
+		}
+	}
+	if !wrapsArg {
+		die("NewIsolatedJob: expected the single statement `return &%s{Job: %s}`", typ, param)
+	}
+	o.line("(* NewIsolatedJob(j) = &isolatedJob{Job: j}: the gate wraps exactly its argument, whatever that is *)")
+	o.line("Definition iso_ctor_wraps_argument : bool := %s.", coqBool(wrapsArg))
 }
